@@ -48,8 +48,20 @@ func c29Pick(t reflect.Type, vs []reflect.Value, idx int) reflect.Value {
 	if b := c29Boundary[t]; len(b) > 0 && idx%3 == 0 {
 		return b[(idx/3)%len(b)]
 	}
-	return vs[idx%len(vs)]
+	v := vs[idx%len(vs)]
+	// under -simplify_wildcard_paths an element whose keys are all wildcards is rendered without keys;
+	// the expectation cannot tell a supplied string "*" from a wildcard, so "*" is not supplied there
+	for tries := 1; c29NoStar && tries < len(vs); tries++ {
+		if c, _ := lib.CanonScalar(v, true); c != "string:*" {
+			break
+		}
+		v = vs[(idx+tries)%len(vs)]
+	}
+	return v
 }
+
+// c29NoStar is set while a configuration generated with -simplify_wildcard_paths is driven.
+var c29NoStar bool
 
 var pathStructT = reflect.TypeOf((*ygot.PathStruct)(nil)).Elem()
 
@@ -156,6 +168,7 @@ func runC29(r *lib.Run) {
 		any = true
 		r.Hit("configuration")
 		r.Hit("configuration:" + name)
+		c29NoStar = cfg.Simplify
 		pool := keyValuePool(cfg, r.Seed, tuples)
 		root := reflect.ValueOf(cfg.PathRoot())
 		rootInfo := cfg.Info(reflect.TypeOf(cfg.NewRoot()))
